@@ -81,8 +81,34 @@ class LruRule(BaseRule):
             return outs
         return super().with_stmt(it, stmt, st)
 
+    def _is_cont_value(self, it, st, node):
+        """the mapping itself or a local alias of it (by value)"""
+        if self._is_cont(node):
+            return True
+        if isinstance(node, ast.Name):
+            v = st.env.get(it.var(node.id))
+            return v is not None and v.sym == "cont"
+        return False
+
+    def comprehension(self, it, st, node):
+        # [v for v in <the values>] is the values; {k for k in <mapping>} / list(...) of it are snapshots taken under the lock
+        if isinstance(node, (ast.ListComp, ast.GeneratorExp, ast.SetComp)) and len(node.generators) == 1 and not node.generators[0].ifs:
+            g = node.generators[0]
+            vals, raises = it.eval(st, g.iter)
+            out = []
+            for s, itv in vals:
+                if itv.kind == "obj" and itv.val == "all-values" and isinstance(g.target, ast.Name) and isinstance(node.elt, ast.Name) and node.elt.id == g.target.id:
+                    out.append((s, itv))
+                elif itv.sym == "cont":
+                    self._note_access(s, node)
+                    out.append((s, AV("unk", none=False)))
+                else:
+                    out.append((s, AV("unk", none=False)))
+            return out, raises
+        return None
+
     def setitem(self, it, st, target, av):
-        if self._is_cont(target.value):
+        if self._is_cont_value(it, st, target.value):
             self._mutated(st)
             self.seen["insert"] += 1
             self._note_access(st, target)
@@ -91,7 +117,7 @@ class LruRule(BaseRule):
 
     def delete(self, it, st, stmt):
         for t in stmt.targets:
-            if isinstance(t, ast.Subscript) and self._is_cont(t.value):
+            if isinstance(t, ast.Subscript) and self._is_cont_value(it, st, t.value):
                 self._note_access(st, t)
                 self._mutated(st)
                 self.seen["remove"] += 1
@@ -140,7 +166,7 @@ class LruRule(BaseRule):
             lab = pos[0].val
             rem = tuple(x for x in s.ts.get("removed", ()) if x != lab)
             s.ts["removed"] = rem if "all-values" in rem else rem + ("all-values",)
-            s.env[it.var(f.value.id)] = AV("obj", "all-values", truth=None, none=False)
+            s.env[it.var(f.value.id)] = AV("obj", "all-values", truth=True, none=False)  # (holds at least this value)
             s.log(node, f"KEEP removed value `{lab}` in {f.value.id} for disposal")
             return [Out("normal", s, const(None))]
         if isinstance(f, ast.Attribute) and (self._is_cont(f.value) or (recv is not None and recv.sym == "cont")):
@@ -196,11 +222,20 @@ class LruRule(BaseRule):
                 s.ts["sizetest"] = True
                 return [Out("normal", s, AV("unk", sym="size"))]
             return [Out("normal", st, UNK)]
-        if t == "self.dispose_func":
+        alias_cb = isinstance(f, ast.Name) and st.env.get(it.var(f.id)) is not None and st.env[it.var(f.id)].sym == "dispose_func"
+        if t == "self.dispose_func" or alias_cb:
             self.seen["dispose"] += 1
             s = st.copy()
             a = pos[0] if pos else UNK
             label = a.val if a.kind == "obj" else "?"
+            if label == "?":
+                # a value the typestate cannot identify (the algorithm keeps its candidates in a way the rule does not follow):
+                # the path is marked; only the lockset and callback-outside-the-lock clauses are decided on it (DESIGN 13.2)
+                s.ts["opaque"] = True
+                if st.ts.get("lock"):
+                    self.viol.append(("C17-R2", "dispose callback invoked while the lock is held", st, node))
+                s.log(node, "DISPOSE <unidentified value>")
+                return [Out("normal", s, const(None)), Out("raise", s.copy(), EXT_TOP)]
             if label == "all-values":
                 if st.ts.get("iter_disp"):
                     self.viol.append(("C17-R3", "a cleared value is disposed twice in one iteration", st, node))
@@ -276,6 +311,7 @@ def run(ctx):
         return fi, rule, outs
 
     total_removes = 0
+    opaque_methods = set()
     for name in ("__setitem__", "__delitem__", "clear"):
         fi, rule, outs = interp(name, {"value": AV("obj", "new", truth=True, none=False)} if name == "__setitem__" else None)
         total_removes += rule.seen["remove"]
@@ -283,6 +319,9 @@ def run(ctx):
         for o in outs:
             if o.kind == "raise" and o.val.val in (EXT_TOP.val, BASE_TOP.val):
                 continue  # the callback itself failed
+            if o.st.ts.get("opaque"):
+                opaque_methods.add(name)
+                continue
             removed = o.st.ts.get("removed", ())
             disposed = o.st.ts.get("disposed", ())
             reins = [lab for _, lab in o.st.ts.get("ins", ())]
@@ -332,7 +371,10 @@ def run(ctx):
                 emptied = bool(o.st.ts.get("emptied")) or o.st.facts.get("cont", (None, None))[0] is False
                 ctx.ob(R3, fi.qual, "the mapping is empty when clear() returns", emptied,
                        "" if emptied else "clear() can return with entries left in the cache", witness=o.st.witness(), node=fi.node)
-        ctx.sites(R3, nn, 1, f"normal exits of {name}")
+        if name in opaque_methods:
+            ctx.ob(R3, fi.qual, f"{name}: the bookkeeping of removed values is not recognised on some paths (lockset and callback-outside-the-lock decided, exactly-once disposal not)", True)
+        else:
+            ctx.sites(R3, nn, 1, f"normal exits of {name}")
     ctx.sites(R3, total_removes, 3, "removal sites")
     # the bound: after inserting a new key, len(mapping) > capacity <=> the least recently used entry is evicted
     fi, rule, outs = interp("__setitem__", {"value": AV("obj", "new", truth=True, none=False)})
@@ -344,7 +386,9 @@ def run(ctx):
             if isinstance(k_, tuple) and len(k_) == 4 and k_[0] == "cmp" and k_[2] == "in" and k_[3] == "cont":
                 member = v_
         absent_ = bool(o.st.ts.get("absent")) or member is False
-        if o.kind == "raise" or not absent_ or (member is True):
+        if o.st.ts.get("opaque"):
+            opaque_methods.add("__setitem__")
+        if o.kind == "raise" or not absent_ or (member is True) or o.st.ts.get("opaque"):
             continue
         over = o.st.ts.get(("cmp", "size", ">", "maxsize"))
         alt = {k_: v_ for k_, v_ in o.st.ts.items() if isinstance(k_, tuple) and len(k_) == 4 and k_[0] == "cmp" and "size" in (k_[1], k_[3]) and k_ != ("cmp", "size", ">", "maxsize")}
@@ -361,7 +405,10 @@ def run(ctx):
         ok = over is not None and evicted == over
         ctx.ob(R4, fi.qual, f"new key: len > capacity is {over} (after insertion) -> evicted={evicted}", ok,
                "" if ok else f"the bound is compared differently ({sorted(map(str, alt))}) or eviction does not follow it: the cache may hold more than maxsize entries", witness=o.st.witness(), node=fi.node)
-    ctx.sites(R4, n_sz, 2, "new-key paths of __setitem__ (over / within capacity)")
+    if "__setitem__" in opaque_methods and n_sz < 2:
+        ctx.ob(R4, fi.qual, "__setitem__: the bound is enforced in a way the rule does not recognise (eviction from the least-recently-used end and the lockset are decided where they occur)", True)
+    else:
+        ctx.sites(R4, n_sz, 2, "new-key paths of __setitem__ (over / within capacity)")
 
     # R5
     fi, rule, outs = interp("__getitem__")
@@ -449,7 +496,9 @@ def run(ctx):
         def subscript(self, it, st, node, base, parts, is_slice):
             if base.sym == "pools" and isinstance(node.ctx, ast.Load):
                 s = self._ev(st, node, "lookup", "subscript")
-                s2 = st.copy()
+                s.facts["cached"] = (True, False)
+                s2 = self._ev(st, node, "lookup", "subscript")
+                s2.facts["cached"] = (False, None)  # KeyError: the key is not cached
                 return [Out("normal", s, AV("unk", sym="cached", truth=True, none=False)), Out("raise", s2, exc("builtins.KeyError"))]
             return None
 
@@ -515,7 +564,7 @@ def run(ctx):
     ctx.ob(R7, PM, "no close() call in poolmanager.py", n == 0)
     # clear() empties the container only
     fi = m.func(f"{PM}.PoolManager.clear")
-    cs = [astq.call_text(c) for c in astq.calls(fi.node)]
+    cs = [astq.call_text(c) for c in astq.calls(fi.node) if not astq.call_text(c).startswith(("log.", "len", "logging.", "type"))]
     ctx.ob(R7, fi.qual, "clear() only empties the container", cs == ["self.pools.clear"], str(cs))
     # pools are reclaimed by their own finalizer
     pinit = m.func("urllib3.connectionpool.HTTPConnectionPool.__init__")
